@@ -815,9 +815,7 @@ func c04XMLCase(r *Run, rng *Rng, d c04Desc, tag string) {
 		}
 	}
 	// the raw part agrees with the cached one cell by cell (covered by purity:rows-after-load)
-	if r0c { // on the rless-mixed shape the cached sheet no longer has the description's positions (known finding)
-		c04TrimOracle(s, g, d, sigSuffix)
-	}
+	c04TrimOracle(s, g, d, sigSuffix)
 	c04IterOracle(s, g, gc, sigSuffix)
 	// SearchSheet: exactly the cells whose value equals the needle
 	for _, n := range needles {
@@ -1104,9 +1102,6 @@ func c04XMLRecipe(sub uint64) (c04Builder, string) {
 	c04Hot = nil
 	rng := NewRng(sub)
 	d := c04GenDesc(rng, true)
-	for !d.r0consistent() { // the rless-mixed shape is a known finding, reproduced by the xml cases
-		d = c04GenDesc(rng, true)
-	}
 	// extra numeric payloads that exercise getValueFrom's default branch
 	nums := []string{"1.0000000000000002", "1E3", "12345678901234567890", "0.30000000000000004", "1e+21", "007"}
 	extra := ""
